@@ -55,6 +55,7 @@ type Contract struct {
 	NoPanic      bool
 	FrameChecked bool
 	NoFrame      bool
+	AssumedFrame bool // the declared frame is trusted (as for an extern) while the body is still checked for its other clauses
 	WritesImmut  []string // waivers: heaps declared immutable that this function may write on objects it owns
 	CallbackPure bool
 	Rnd64        bool
@@ -424,6 +425,8 @@ func parseContractFile(path, pkgPath string) (*PkgSpec, error) {
 					cur.FrameChecked = true
 				case "noframe":
 					cur.NoFrame = true
+				case "assumed_frame":
+					cur.AssumedFrame = true
 				case "callbacks_pure":
 					cur.CallbackPure = true
 				case "rnd64":
